@@ -49,7 +49,9 @@ PROP = {
     "nontrivial": nontrivial,
     "rule": "seq: every call sequence over {Ack,Nack,Acked(),Nacked()} up to length 6 (quick) / 8 (thorough) on NewMessage, Copy and "
             "zero-value messages, exhaustively; hist: seeded concurrent histories of 2..16 goroutines x 1..4 calls with a spin barrier per "
-            "round and yield injection, each checked linearizable against the Lean step function. Non-trivial = a sequence with >= 2 settle "
+            "round and yield injection, each checked linearizable against the Lean step function; parked: the deciding Ack/Nack is held at the hook "
+            "points between the state write and the channel close (message.ack|nack.decided, .closing - inside the critical section of the unchanged code) "
+            "while a second goroutine runs every script of length <= 3 (4 thorough) over the four calls, again checked linearizable. Non-trivial = a sequence with >= 2 settle "
             "calls, or a history with >= 1 pair of overlapping calls; distinct = distinct (request, observation) pairs.",
     "trusted_base": [
         "Lean 4.33.0 kernel; axioms per theorem listed under theorem_axioms (subset of propext, Classical.choice, Quot.sound)",
